@@ -113,6 +113,18 @@ CLAIMED = {
         "form is positive. Conformance: all six relations evaluated exactly at every (x, time) of seeded double-ended results.",
    ref="5/C06", note=TB + "positive semi-definiteness of the reported p_cov is not proved (it is the solver's output); ordering tests carry a 2^-40 relative slack.",
    technique="Coq proof of the inverse-variance mean algebra + exact relations on outputs via vm_compute"),
+ "C19": dict(
+   text="Proof over REGENERATED source text (Gen/GenChecks.v: the assert/raise statements that a reachability analysis finds on the wls path of both calibration "
+        "routines, through validate_sections, the helpers, the solvers, construct_submatrices, parse_st_var and wls_sparse): every clause of the property has a "
+        "reachable check (a finite statement decided by computation), hence every input that passes all checks the code applies satisfies every clause "
+        "(accepted => valid). On the pinned source this proof did not check and the search produced the failing inputs (findings F11: variance validation "
+        "after `return`; F17: infinite reference temperature) - both repaired. Conformance: one corruption at every site of valid inputs (each channel x each "
+        "reference location x times x {0, negative, NaN, inf}; each bath x {NaN, +-inf}; each variance argument as float / array cell x {NaN, inf, negative}; "
+        "fix_alpha too short; (time, x) storage; unknown method/solver) must raise; corruptions outside the sections and the unchanged input must return "
+        "finite temperatures and variances at every location whose intensities are finite and positive.",
+   ref="5/C19", note=TB + "translator vlib/translators/checks.py (reachability of assert/raise/return; a fixed call chain whose links are verified "
+        "syntactically); the mapping clause -> check (e.g. NaN intensity is caught by 'Finite y') is stated in Model/Validate.v and exercised by the conformance.",
+   technique="Coq proof (finite coverage of regenerated reachable checks) + exhaustive single-corruption conformance"),
 }
 NA = {}
 ALL = [f"C{i:02d}" for i in range(1, 21)]
